@@ -103,7 +103,19 @@ type c16Case struct {
 	// DupOpt: every option that is passed is passed twice, first with a decoy value (options are
 	// applied in order, the last one counts).
 	DupOpt bool `json:"dupopt,omitempty"`
+	// Cb: what the k-th execute callback (cyclic) does with the slice it was given, AFTER its
+	// latency (so that Adds can arrive between the hand-over and the action); bulk and chunk:
+	// 0 read only; 1 keeps the slice and re-reads it at the end of the case (it must still hold
+	// the same tasks); 2 appends CbN trailer elements to it and keeps using the result; 3
+	// overwrites every element in place; 4 re-slices to full capacity and reads; 5 sorts
+	// (reverses) it in place. What a callback does to its own argument must not affect any
+	// other batch.
+	Cb  []int `json:"cb,omitempty"`
+	CbN int   `json:"cbn,omitempty"`
 }
+
+// c16Marker: ids of the elements callbacks write into their own batch (never added as tasks)
+const c16Marker = -5000
 
 // c16SharedOpts: option slices reused, as the same slice value, by several executors of one case.
 type c16SharedOpts struct {
@@ -333,8 +345,15 @@ type c16State struct {
 	dead     bool            // case over: later callbacks are only counted
 	late     int
 	liveFail string
+	kept     []c16Kept
 	reops    []*c16Op // adds made from inside callbacks
 	shared   *c16SharedOpts
+}
+
+// c16Kept: a batch slice a callback kept; it must still hold the batch at the end of the case
+type c16Kept struct {
+	b   *c16Batch
+	raw []any
 }
 
 func (s *c16State) tick() int64 { s.clock++; return s.clock }
@@ -354,7 +373,7 @@ func c16Goid() uint64 {
 type c16Container struct {
 	tasks []int
 	max   int
-	exec  func(ids []int)
+	exec  func(ids []int, raw []any)
 	dec   func(any) int
 }
 
@@ -362,7 +381,7 @@ func (c *c16Container) AddTask(task any) bool {
 	c.tasks = append(c.tasks, c.dec(task))
 	return c.max > 0 && len(c.tasks) >= c.max
 }
-func (c *c16Container) Execute(tasks any) { c.exec(tasks.([]int)) }
+func (c *c16Container) Execute(tasks any) { c.exec(tasks.([]int), nil) }
 func (c *c16Container) RemoveAll() any {
 	t := c.tasks
 	c.tasks = nil
@@ -434,13 +453,13 @@ type c16Subject struct {
 	wait  func()
 }
 
-func c16New(c c16Case, exec func(ids []int), shared *c16SharedOpts) c16Subject {
+func c16New(c c16Case, exec func(ids []int, raw []any), shared *c16SharedOpts) c16Subject {
 	anyExec := func(tasks []any) {
 		ids := make([]int, len(tasks))
 		for i, t := range tasks {
 			ids[i] = c.decode(t)
 		}
-		exec(ids)
+		exec(ids, tasks)
 	}
 	switch c.Kind {
 	case "bulk":
@@ -513,7 +532,7 @@ func c16Run(c c16Case, s *c16State, par bool) (fail string) {
 	var sub c16Subject
 	reenter := c.canReenter()
 	reNext := len(c.Ev) // ids of tasks added from inside callbacks
-	exec := func(ids []int) {
+	exec := func(ids []int, raw []any) {
 		h := c16Goid()
 		s.mu.Lock()
 		if s.dead {
@@ -534,6 +553,39 @@ func c16Run(c c16Case, s *c16State, par bool) (fail string) {
 					}
 				} else {
 					time.Sleep(time.Duration(l) * U)
+				}
+			}
+		}
+		if raw != nil && len(c.Cb) > 0 { // what the callback does with its own argument
+			switch c.Cb[k%len(c.Cb)] {
+			case 1:
+				s.mu.Lock()
+				s.kept = append(s.kept, c16Kept{b, raw})
+				s.mu.Unlock()
+			case 2:
+				n := c.CbN
+				if n < 1 {
+					n = 1
+				}
+				for j := 0; j < n; j++ {
+					raw = append(raw, c16Marker-j)
+				}
+				s.mu.Lock()
+				s.kept = append(s.kept, c16Kept{b, raw[:len(b.ids)]})
+				s.mu.Unlock()
+			case 3:
+				for i := range raw {
+					raw[i] = c16Marker - 100
+				}
+			case 4:
+				sum := 0
+				for _, t := range raw[:cap(raw)] {
+					sum += c.decode(t)
+				}
+				_ = sum
+			case 5:
+				for i, j := 0, len(raw)-1; i < j; i, j = i+1, j-1 {
+					raw[i], raw[j] = raw[j], raw[i]
 				}
 			}
 		}
@@ -953,6 +1005,24 @@ func c16Check(c c16Case, s *c16State, res *c16Result, par bool) {
 		}
 		if b.tend > b.tstart {
 			cl["latency"] = true
+		}
+	}
+	// 4b. a batch slice that a callback kept (and possibly appended to) still holds its batch
+	for _, kp := range s.kept {
+		for i, id := range kp.b.ids {
+			if i >= len(kp.raw) || c.decode(kp.raw[i]) != id {
+				got := -1
+				if i < len(kp.raw) {
+					got = c.decode(kp.raw[i])
+				}
+				failf("the slice handed to execute for batch %v was changed afterwards by the executor: element %d is now task %d%s", kp.b.ids, i, got, c16History(s))
+				break
+			}
+		}
+	}
+	if len(c.Cb) > 0 && c.Kind != "periodical" {
+		for _, k := range c.Cb {
+			cl["callback-"+[]string{"reads", "keeps-slice", "appends-trailer", "overwrites", "reslices-to-cap", "sorts"}[k%6]] = true
 		}
 	}
 	// 5. Wait returns only after every task added before it has finished executing
@@ -1462,7 +1532,20 @@ func c16Gen(rt *rapid.T) c16Case {
 		c.PanicAt = rapid.IntRange(1, 6).Draw(rt, "panicAt")
 		c.PanicKind = rapid.IntRange(0, 2).Draw(rt, "pkind")
 	}
+	c16GenCb(rt, &c)
 	return c
+}
+
+// c16GenCb: what the callbacks do with their argument (half of the cases: read only)
+func c16GenCb(rt *rapid.T, c *c16Case) {
+	if c.Kind == "periodical" || rapid.Bool().Draw(rt, "cbro") {
+		return
+	}
+	n := rapid.IntRange(1, 3).Draw(rt, "ncb")
+	for i := 0; i < n; i++ {
+		c.Cb = append(c.Cb, rapid.SampledFrom([]int{0, 1, 2, 2, 2, 3, 4, 5}).Draw(rt, "cb"))
+	}
+	c.CbN = rapid.IntRange(1, 3).Draw(rt, "cbn")
 }
 
 // c16GenLong: one executor living through 10^3..10^5 cheap operations: a short template of
@@ -1512,6 +1595,7 @@ func c16GenLong(rt *rapid.T) c16Case {
 	}
 	c.Q = rapid.Bool().Draw(rt, "q")
 	c.Poly = rapid.IntRange(0, 3).Draw(rt, "poly") == 0
+	c16GenCb(rt, &c)
 	return c
 }
 
@@ -1543,6 +1627,7 @@ func c16GenPar(rt *rapid.T) c16Case {
 		c.Lat = append(c.Lat, rapid.SampledFrom([]int{0, 0, 1, 3, 10}).Draw(rt, "lat"))
 	}
 	c.Q = rapid.IntRange(0, 11).Draw(rt, "q") == 0
+	c16GenCb(rt, &c)
 	return c
 }
 
@@ -1730,6 +1815,7 @@ func c16GenSeqOne(rt *rapid.T) c16Case {
 		c.Lat = append(c.Lat, rapid.SampledFrom([]int{0, 0, 1, 3}).Draw(rt, "lat"))
 	}
 	c.Q = rapid.Bool().Draw(rt, "q")
+	c16GenCb(rt, &c)
 	return c
 }
 
